@@ -49,10 +49,11 @@ Theorem C12_redefinition_propagates : forall w n supers slots ro co, Inv w ->
 Proof. exact redefinition_propagates. Qed.
 Print Assumptions C12_redefinition_propagates.
 
-(* (6) make-instance: for a ready class in an invariant state and guarded arguments, make-instance signals
-   an error iff some supplied initarg is declared by no class of the precedence list; otherwise every slot s
-   of the new instance is slot_S: missing if no class of the list names s, else the value of the supplied
-   initarg declared for s by any class of the list, else the initform of the most specific class that gives
+(* (6) make-instance: for a ready class in an invariant state and guarded arguments (no initarg supplied twice,
+   no two supplied initargs declared for the same slot), make-instance signals an error iff some supplied initarg
+   is declared by no class of the precedence list; otherwise every slot s of the new instance is slot_S: missing
+   if no class of the list names s, else the value of the supplied initarg declared for s by any class of the
+   list (one initarg fills every slot that declares it), else the initform of the most specific class that gives
    one, else unbound. *)
 Theorem C12_make_instance_spec : forall w n id c args, Inv w -> registered w n id c -> co_prec c <> [] ->
   g_make w n args = true ->
@@ -125,12 +126,6 @@ Theorem C12_dispatch_cache_class_name_refuted :
   skipn 8 (run_obs w0 w_key) = [ONames [0]; ONames [0]; OB false].
 Proof. exact dispatch_cache_class_name_refuted. Qed.
 Print Assumptions C12_dispatch_cache_class_name_refuted.
-Theorem C12_shared_initarg_refuted :
-  guard_ops w0 w_shared_prefix = true /\ guard_ops w0 w_shared = false /\
-  last (run_obs w0 w_shared) OErr = OInst [SUnbound; SVal 5; SMissing; SMissing] /\
-  map (slot_S (cs_of (run w0 w_shared_prefix)) [1; 0] [(0, 5%Z)]) [0; 1; 2; 3] = [SVal 5; SVal 5; SMissing; SMissing].
-Proof. exact shared_initarg_refuted. Qed.
-Print Assumptions C12_shared_initarg_refuted.
 Theorem C12_two_initargs_one_slot_refuted :
   guard_ops w0 w_two_prefix = true /\ guard_ops w0 w_two = false /\
   last (run_obs w0 w_two) ODone = OErr /\
@@ -197,6 +192,33 @@ Theorem C12_original_dispatch_cache_stale_refuted :
   snd (step w2 (ODispatch 1) [] []) = ONames [3].
 Proof. exact original_dispatch_cache_stale_refuted. Qed.
 Print Assumptions C12_original_dispatch_cache_stale_refuted.
+
+(* (11d) repaired (repo_fixes/C12-5): an initarg declared for two slots fills both, whether the two slots come
+   from a class and its superclass or from one defclass form.  The second theorem keeps the record of the
+   unchanged code (one slot per initarg: the superclass's slot stayed unbound). *)
+Theorem C12_shared_initarg_example :
+  guard_ops w0 w_shared = true /\
+  skipn 3 (run_obs w0 w_shared) = [OInst [SVal 5; SVal 5; SMissing; SMissing]; OInst [SVal 6; SVal 6; SMissing; SMissing]] /\
+  map (slot_S (cs_of (run w0 w_shared_prefix)) [1; 0] [(0, 5%Z)]) [0; 1; 2; 3] = [SVal 5; SVal 5; SMissing; SMissing].
+Proof. exact shared_initarg_example. Qed.
+Print Assumptions C12_shared_initarg_example.
+Theorem C12_original_shared_initarg_refuted :
+  let w := run w0 w_shared_prefix in
+  match lookup (reg w) 1 with
+  | Some id => match get w id with
+               | Some c =>
+                   let v0 := fold_left (fun vs p => init_inh (slots_of (heap w) p) vs) (co_inherit c) (init_own (co_slots c) []) in
+                   match shared_args_orig (co_initargs c) [(0, 5%Z)] [] v0, shared_args (co_initargs c) [(0, 5%Z)] [] v0 with
+                   | Some (_, v1), Some (_, v2) =>
+                       map (slot_state v1) [0; 1] = [SUnbound; SVal 5] /\ map (slot_state v2) [0; 1] = [SVal 5; SVal 5]
+                   | _, _ => False
+                   end
+               | None => False
+               end
+  | None => False
+  end.
+Proof. exact original_shared_initarg_refuted. Qed.
+Print Assumptions C12_original_shared_initarg_refuted.
 
 (* (12) the hypotheses are satisfiable: a guarded history with forward references, a diamond, shadowed
    slots, initforms at two levels, a nil initform, a redefinition below which a class inherits, accessors and
